@@ -1,4 +1,4 @@
-PROP = {"mismatch_is_violation": True, "ready": True, 'coq': ['theories/Properties/C08.v'],
+PROP = {"mismatch_is_violation": True, "ready": True, 'coq': ['theories/Properties/C08.v', 'theories/Properties/C08_typing.v'],
  'suites': [{'bin': 'obs-numscript', 'corpus': 'numscript'}],
  'trusted': ['hand-written models Numscript/{Funding,VM,Syntax,Compiler,Run,Sem}.v of '
              'internal/machine/{funding,allotment,portion,monetary}.go, vm/{machine,run,stack}.go, script/compiler/*.go; tied on every run '
@@ -33,11 +33,17 @@ PROP = {"mismatch_is_violation": True, "ready": True, 'coq': ['theories/Properti
                       'is any partial map of (sha text -> compile text) entries, under any eviction and any call sequence, answers as '
                       'fresh compilations. Models tied to the working tree on every run: bytecode/resources/sources/needed-balances '
                       'equality with the real compiler and outcome equality of both the model machine and Sem with the real machine on '
-                      'generated programs.',
+                      'generated programs. C08_reject_sound (Properties/C08_typing.v; judgement Numscript/Typing.v, proofs '
+                      'Numscript/TypingProofs.v): the model compiler accepts a script iff it is well_formed - a declarative, syntax-only '
+                      'judgement (typing environment from the vars block, expression types, account/max/ordered sources with the '
+                      'overdraft, unbounded-only-last and no-account-emptied-twice rules, allotment sum rules, destinations, '
+                      'statements) - for every script within the two implementation limits (32768 variables, syntactic resource bound '
+                      '<= 65536); the direction accepted => well-formed, hence ill-formed => compile error => not run '
+                      '(C08_ill_formed_not_run), holds without any size hypothesis.',
               'note': 'Trusted: Coq kernel; hand-written models validated by correspondence only; ANTLR parser not modelled (real parser '
                       'feeds the model). Side conditions of the theorem (lowest-terms ratio literals, non-empty statement list, typed glue '
-                      'values) are stated in assumptions with refutation witnesses showing each is necessary. Not proved here: the '
-                      "declarative well-formedness judgement of DESIGN 5-C08 (reject_sound) - only 'rejected => not run'; sem-refines-spec "
+                      'values) are stated in assumptions with refutation witnesses showing each is necessary. The '
+                      "declarative judgement of C08_reject_sound is about the model compiler (tied to the real one by correspondence); sem-refines-spec "
                       'is C03. SHA-256 injectivity on the offered texts is a hypothesis. Known finding F-C08c (ordered destination with '
                       'kept before a later max over-commits) is a property of Sem itself and is preserved, not introduced, by compilation.',
               'technique': 'Coq proof (compiler correctness by structural induction on the AST - custom induction principles for nested '
